@@ -7,9 +7,14 @@ python3 - "$id" "$props" > $f <<'PY'
 import json,sys
 print(json.dumps([{"name":sys.argv[1],"props":sys.argv[2].split(),"patch":"/verif/seeded/%s/patch.diff"%sys.argv[1],"suite":False}]))
 PY
-MUT_BUDGET=$budget python3 /verif/tools/mutate.py $f | python3 -c "
+MUT_BUDGET=$budget python3 /verif/tools/mutate.py $f > /dev/null
+python3 - "$id" <<'PY'
 import sys,json
-for l in sys.stdin:
-    r=json.loads(l); print(r['name'], r.get('error',''), {p:(c['rc'],c['wall'],c['sigs'][:3]) for p,c in r.get('checks',{}).items()})
-"
+last=None
+for l in open('/verif/tools/mutation_results.jsonl'):
+    r=json.loads(l)
+    if r['name']==sys.argv[1]: last=r
+r=last
+print(r['name'], r.get('error',''), {p:(c['rc'],c['wall'],[s[:90] for s in c['sigs'][:3]]) for p,c in r.get('checks',{}).items()})
+PY
 rm -f $f
